@@ -1273,6 +1273,14 @@ def _listval(ip, args, kw):
     return v
 
 
+import typing as _typing
+
+
+@builtin(_typing.cast)
+def _cast(ip, args, kw):
+    return args[1]
+
+
 @builtin(_api.setseq)
 def _setseq(ip, args, kw):
     """the members of a set as a sequence (insertion order); kind = kind of that sequence"""
@@ -1316,7 +1324,18 @@ def int_from_bytes_model(ip, args, kw):
                     uv = cand
                     break
         if uv is None:
-            raise Unsupported("int.from_bytes of a string of symbolic length")
+            if ip.st.merge:
+                raise Unsupported("int.from_bytes of a string of symbolic length")
+            # undetermined length: the usual 32-byte case apart, the general big-endian value (spec be_value)
+            if ip.st.branch(n == 32, "from_bytes of 32 bytes"):
+                uv = 32
+            else:
+                if order != 'big':
+                    raise Unsupported("int.from_bytes (little-endian) of a string of symbolic length")
+                bv_ = ip.reg.get_spec('be_value', optional=True)
+                if bv_ is None:
+                    raise Unsupported("int.from_bytes of a string of symbolic length")
+                return _M().call_spec(ip, bv_, [s], {})
         n = z3.IntVal(uv)
     return bytes_int(ip, s, n.as_long(), '<' if order == 'little' else '>') if n.as_long() > 0 else 0
 
